@@ -108,8 +108,42 @@ def html_only_documents():
     return docs
 
 
+NONASCII = [('é', 'É'), ('σ', 'Σ'), ('k', 'K'), ('ß', 'ẞ'), ('ı', 'I'), ('ǆ', 'ǅ'), ('s', 'ſ')]
+
+
+def run_nonascii(sv, res):
+    """HTML folds ASCII case only.  For every pair (x, X) of characters related by non-ASCII case mapping: an element/attribute named with X
+    must not be matched by a selector spelled with x (and vice versa), in API-built HTML soups and in lxml/html5lib trees (which keep names)."""
+    import bs4
+    for lo, up in NONASCII:
+        for a, b in ((lo, up), (up, lo)):
+            if a.isascii() and b.isascii():
+                continue
+            forest = (('e', 'div', (), (('e', 'x-' + a, (('data-' + a, 'v'), ('k' + a, 'w')), ()), ('e', 'p', (('data-' + a, 'v'),), ()))),)
+            soup = T.build_api(forest, False)
+            tests = [(S.cx(S.cp(S.T('x-' + b))),), (S.cx(S.cp(None, ('attr', None, 'data-' + b, None, None, None))),),
+                     (S.cx(S.cp(None, ('attr', None, 'k' + b, '=', 'w', None))),)]
+            same = [(S.cx(S.cp(S.T('x-' + a))),), (S.cx(S.cp(None, ('attr', None, 'data-' + a, None, None, None))),)]
+            for lst, expect_any in [(t, False) for t in tests] + [(t, True) for t in same]:
+                text = S.render(lst)
+                try:
+                    got = sv.select(text, soup)
+                except Exception as e:
+                    res.fail({'layer': 'nonascii', 'pair': [a, b], 'text': text}, {'kind': 'raise', 'features': 'non-ascii-name'}, f'{text!r}: {e!r}')
+                    continue
+                res.evaluations += 1
+                if bool(got) != expect_any:
+                    res.fail({'layer': 'nonascii', 'pair': [a, b], 'text': text},
+                             {'kind': 'mismatch', 'direction': 'extra' if got else 'missing', 'doc': 'api-html', 'features': 'non-ascii-case-pair'},
+                             f'{text!r} on an HTML tree whose names are spelled with {a!r}: selected {[_sel.brief(x) for x in got]}; HTML folds ASCII case only')
+                else:
+                    res.outcome('ascii-only-folding')
+                    res.nontrivial += 1 if expect_any else 0
+    return res
+
+
 def shards(tier, seed):
-    return [('case', i, 16) for i in range(16)] + [('htmlonly', 0, 1)]
+    return [('case', i, 16) for i in range(16)] + [('htmlonly', 0, 1), ('nonascii', 0, 1)]
 
 
 def sel_feature(lst):
@@ -138,6 +172,8 @@ def run_shard(desc):
     sv = common.bind()
     warnings.simplefilter('ignore')
     res = shard.Result()
+    if desc[0] == 'nonascii':
+        return run_nonascii(sv, res)
     if desc[0] == 'htmlonly':
         for name, soup, control in html_only_documents():
             for p in HTML_ONLY:
@@ -191,6 +227,13 @@ def replay(case):
     from .. import common
     sv = common.bind()
     warnings.simplefilter('ignore')
+    if case['layer'] == 'nonascii':
+        r = shard.Result()
+        run_nonascii(sv, r)
+        for f in r.failures:
+            if f['case']['text'] == case['text']:
+                return f['sig'], f['detail']
+        return None
     if case['layer'] == 'htmlonly':
         for name, soup, control in html_only_documents():
             if name == case['doc']:
